@@ -45,6 +45,10 @@ def table_facts():
             all_names.add(name)
             fact(f"table/{tname}[{name}]=standard", ref.get(name) == nr and 1 <= nr <= 65535,
                  f"{name} -> {nr}, reference says {ref.get(name)}")
+        # (a') the platform offers exactly the reference keywords (no keyword of another platform or software family)
+        if tname in R.REF_KEYWORDS:
+            extra, missing = sorted(set(tab) - R.REF_KEYWORDS[tname]), sorted(R.REF_KEYWORDS[tname] - set(tab))
+            fact(f"table/{tname}:keywords", not extra and not missing, f"keywords not of this platform: {extra}; missing: {missing}")
         # (b) render -> parse closure inside the table: the name chosen for a number maps back to it (first name wins = _swap, proved)
         first = {}
         for name, nr in tab.items():
